@@ -14,12 +14,27 @@
   mirror (`Rec.pleRec`) over the naive base case is a valid PLE for every input (`pleRec_naive_good`). In Mathlib's
   terms (`ML.checkPLUQ_mathlib`, `ML.checkPLE_mathlib`): A = p.permMatrix * (L * U) * q.permMatrix with L unit lower
   trapezoidal, U unit upper / E echelon with strictly increasing pivots, rank = r.
+  END TO END (M4riProofs/Top.lean, PB27) — nothing of C03 is per-input certification any more. The block-iterative
+  Four-Russians base case `_mzd_ple_russian` is mirrored step by step (`PR.pleRussian`, M4ri/PleRussian.lean) and proved
+  equal to `_mzd_ple_naive` on every input (`PR.pleRussian_eq_pleNaive`); `mzd_ple` = `_mzd_ple` is `PR.pleTop L1 L2 L3`
+  (the block recursion `Rec.pleRec` over that base case with the real regime parameters), `mzd_pluq` = `_mzd_pluq` is
+  `PR.pluqTop L1 L2 L3`. For EVERY cache triple (no hypothesis on it) and every well-formed `A`:
+    `Top.pleTop_c03`    `mzd_ple`: well-formed storage, `IsPLE` (valid factorisation in the library's convention), accepted by
+                        `checkPLE`, `P` and `Q` in LAPACK form on their whole length, `P` fixes the rows from the rank on,
+                        `r = rank A`, `Q[0..r)` = column rank profile
+    `Top.pluqTop_c03`   `mzd_pluq`: well-formed storage, `IsPLUQ` and the rank-profile form `IsProfilePLUQ`, accepted by
+                        `checkPLUQ`, same `P`, `Q`, `r` as `mzd_ple`, LAPACK form, `r = rank A`, `Q[0..r)` = rank profile
+    `Top.pluqTop_eq`    the two mirrors of `_mzd_pluq` (`PR.pluqTop`, `G2.pluqOfPle`) agree on every well-formed input
+    `Top.pluqTop_mathlib`, `Top.pleTop_mathlib`, `Top.pluqTop_mat`   the Mathlib forms (A = p·(L·U)·q, rank = r)
+  `_mzd_pluq_russian`: `PR.pluqRussian_isPLUQ`, `PR.checkPLUQ_pluqRussian`, `PR.pluqRussian_rank`. The checkers remain in the
+  correspondence runs as a tie between the mirrors and the C code, no longer as the source of the guarantee.
 -/
 import M4riProofs.Checkers
 import M4riProofs.GaussOK
 import M4riProofs.PleNaive
 import M4riProofs.MathlibSpec
 import M4riProofs.TrsmRec
+import M4riProofs.Top
 namespace M4ri.Props.C03
 open M4ri M4ri.BMat
 
@@ -73,5 +88,53 @@ theorem pluq_rank {A S : BMat} {P Q : Array Nat} {r : Nat} (hA : A.WF) (h : chec
 #check @M4ri.BMat.ML.checkPLE_mathlib
 #check @M4ri.BMat.ML.lapackPerm_eq_prod
 #check @M4ri.BMat.ML.mat_permMat
+
+
+-- end to end for the real routines (M4riProofs/Top.lean), every cache triple, every well-formed input
+/-- `mzd_ple` returns a certificate `checkPLE` accepts, with `r = rank A` and `Q[0..r)` the column rank profile -/
+theorem ple_end_to_end (L1 L2 L3 : Nat) {A : BMat} (hA : A.WF) :
+    checkPLE A (PR.pleTop L1 L2 L3 A).1 (PR.pleTop L1 L2 L3 A).2.1 (PR.pleTop L1 L2 L3 A).2.2.1
+      (PR.pleTop L1 L2 L3 A).2.2.2 = true ∧ (PR.pleTop L1 L2 L3 A).2.2.2 = A.rank ∧
+    (List.range (PR.pleTop L1 L2 L3 A).2.2.2).map (fun i => (PR.pleTop L1 L2 L3 A).2.2.1.getD i 0) = A.rankProfile :=
+  ⟨Top.checkPLE_pleTop L1 L2 L3 hA, PR.pleTop_rank_profile L1 L2 L3 hA⟩
+
+/-- `mzd_pluq` returns a certificate `checkPLUQ` accepts, with `r = rank A` and `Q[0..r)` the column rank profile -/
+theorem pluq_end_to_end (L1 L2 L3 : Nat) {A : BMat} (hA : A.WF) :
+    checkPLUQ A (PR.pluqTop L1 L2 L3 A).1 (PR.pluqTop L1 L2 L3 A).2.1 (PR.pluqTop L1 L2 L3 A).2.2.1
+      (PR.pluqTop L1 L2 L3 A).2.2.2 = true ∧ (PR.pluqTop L1 L2 L3 A).2.2.2 = A.rank ∧
+    (List.range (PR.pluqTop L1 L2 L3 A).2.2.2).map (fun i => (PR.pluqTop L1 L2 L3 A).2.2.1.getD i 0) = A.rankProfile :=
+  ⟨Top.checkPLUQ_pluqTop L1 L2 L3 hA, Top.pluqTop_rank_profile L1 L2 L3 hA⟩
+
+#check @M4ri.BMat.Top.goodPle_pleTop
+#check @M4ri.BMat.Top.pluqTop_eq
+#check @M4ri.BMat.Top.pluqTop_snd
+#check @M4ri.BMat.Top.pleTop_c03
+#check @M4ri.BMat.Top.pluqTop_c03
+#check @M4ri.BMat.Top.pluqTop_profile
+#check @M4ri.BMat.Top.pluqTop_isPLUQ
+#check @M4ri.BMat.Top.pluqTop_WF
+#check @M4ri.BMat.Top.pleTop_WF
+#check @M4ri.BMat.Top.checkPLUQ_pluqTop
+#check @M4ri.BMat.Top.checkPLE_pleTop
+#check @M4ri.BMat.Top.pluqTop_rank_profile
+#check @M4ri.BMat.Top.pluqTop_rank
+#check @M4ri.BMat.Top.pleTop_Q_lapack
+#check @M4ri.BMat.Top.pluqTop_mathlib
+#check @M4ri.BMat.Top.pleTop_mathlib
+#check @M4ri.BMat.Top.pluqTop_mat
+#check @M4ri.BMat.PR.pleRussian_eq_pleNaive
+#check @M4ri.BMat.PR.pleRussian_good
+#check @M4ri.BMat.PR.goodBase_russian
+#check @M4ri.BMat.PR.pleTop_good
+#check @M4ri.BMat.PR.pleTop_isPLE
+#check @M4ri.BMat.PR.pleTop_rank
+#check @M4ri.BMat.PR.pleTop_rank_profile
+#check @M4ri.BMat.PR.pluqRussian_isPLUQ
+#check @M4ri.BMat.PR.checkPLUQ_pluqRussian
+#check @M4ri.BMat.PR.pluqRussian_rank
+#check @M4ri.BMat.PR.isPLUQ_of_isPLE_tri
+#check @M4ri.BMat.G2.pluqOfPle_profile
+#check @M4ri.BMat.G2.goodPle_pleRec
+#check @M4ri.BMat.G2.pluqOfPle_needs_qtail
 
 end M4ri.Props.C03
